@@ -132,10 +132,19 @@ func (in *Interp) eval(a *act, n *gen.Node) *Value {
 		return v
 	case "setc":
 		// GUIDE "计算类型": &砍一刀 = D20 + 4 stores the expression
+		// every execution creates a new computed value with an empty attribute space
 		c := &Value{K: KComp, Comp: &Comp{Expr: n.Kids[0], Attrs: map[string]*Value{}}}
 		if in.SrcOf != nil {
 			c.Comp.Src = in.SrcOf(n)
 		}
+		for _, prev := range in.compRuns[n] {
+			if len(prev.Attrs) > 0 {
+				in.corner(CornerCompRedef, "computed definition executed again after an earlier instance received attributes")
+				break
+			}
+		}
+		in.compRuns[n] = append(in.compRuns[n], c.Comp)
+		in.compDef[c.Comp] = n
 		a.vars[n.S] = c
 		return c
 	case "dice":
@@ -192,7 +201,7 @@ func (in *Interp) evalTmpl(a *act, n *gen.Node) *Value {
 			if v == nil {
 				v = Str("")
 			}
-			s, why := ToStr(v, in.Cfg.RefuseSharedText)
+			s, why := ToStr(v, in.onSharedText)
 			if why != "" {
 				refuse("%s", why)
 			}
@@ -245,6 +254,7 @@ func (in *Interp) getItem(obj, idx *Value) *Value {
 		if !ok {
 			fail("index out of range")
 		}
+		needOrder(obj, "index")
 		return obj.Arr.List[i]
 	case KDict:
 		k, ok := DictKey(idx)
@@ -296,6 +306,7 @@ func (in *Interp) getSlice(obj, lo, hi *Value) *Value {
 	if x > y {
 		x = y
 	}
+	needOrder(obj, "slice")
 	if obj.K == KStr {
 		return Str(string([]rune(obj.S)[x:y]))
 	}
@@ -423,7 +434,9 @@ func (in *Interp) binop(op string, l, r *Value) *Value {
 				fail("array too long")
 			}
 			out := append([]*Value(nil), l.Arr.List...)
-			return Arr(append(out, r.Arr.List...))
+			res := Arr(append(out, r.Arr.List...))
+			res.Arr.Unordered = l.Arr.orderMatters() || r.Arr.orderMatters()
+			return res
 		}
 	case "-":
 		switch {
@@ -528,10 +541,11 @@ func (in *Interp) binop(op string, l, r *Value) *Value {
 	return nil
 }
 
-// repeat: [1] * 10 (GUIDE "数组"), at most 512 elements.
+// repeat: [1] * 10 (GUIDE "数组"), at most 512 elements; a negative count is an
+// error (by code ArrayRepeatTimesEx types.go:1424).
 func repeat(arr *Value, times int64) *Value {
 	if times < 0 {
-		refuse("array repeated a negative number of times")
+		fail("array repeated a negative number of times")
 	}
 	n := int64(len(arr.Arr.List))
 	if n == 0 {
@@ -543,6 +557,7 @@ func repeat(arr *Value, times int64) *Value {
 	if n*times > 512 {
 		fail("array too long")
 	}
+	needOrder(arr, "repetition")
 	out := make([]*Value, 0, n*times)
 	for i := int64(0); i < times; i++ {
 		out = append(out, arr.Arr.List...)
@@ -582,6 +597,8 @@ func (in *Interp) equal(a, b *Value, depth int) bool {
 		if len(a.Arr.List) != len(b.Arr.List) {
 			return false
 		}
+		needOrder(a, "equality")
+		needOrder(b, "equality")
 		for i := range a.Arr.List {
 			if !in.equal(a.Arr.List[i], b.Arr.List[i], depth+1) {
 				return false
